@@ -192,6 +192,17 @@ pub fn machines(opts: &Opts) -> Vec<crate::machine::MCfg> {
             m.touch_leaves = true;
             m.seeds = vec![0];
             out.push(m);
+            // views of views, paused and resumed
+            let vl = vec![
+                crate::machine::LeafSpec { dims: vec![2, 3], vals: vec![1.0, 2.0 + var as f64, -1.0, 0.5, 3.0, -2.0], tracked: true },
+                crate::machine::LeafSpec { dims: vec![3], vals: vec![2.0, -1.0, 1.0], tracked: true },
+            ];
+            let mut m = base_cfg("views/N3F2P1", vl, vec![OpK::Reshape(vec![3, 2]), OpK::Reshape(vec![1, 2, 3]), OpK::Mul], 5);
+            m.bounds = Bounds { builds: 3, flags: 2, passes: 1, depth: 6, ..Bounds::default() };
+            m.flag_kinds = vec![1, 2, 3];
+            m.touch_leaves = true;
+            m.seeds = vec![0];
+            out.push(m);
             // fetched gradients are plain independent arrays: adopt them as leaves of a new graph
             let mut m = base_cfg("adopt/N2P2A2", same_shape_leaves(var), vec![OpK::Add, OpK::Mul], 6);
             m.bounds = Bounds { builds: 2, passes: 2, adopts: 2, fetches: 1, depth: 6, ..Bounds::default() };
